@@ -275,4 +275,41 @@ VARIANTS = [
         {"file": SP, "old": "        if address_type == 1:  # IPv4\n            address = socket.inet_ntoa(data[:4])\n",
          "new": "        if address_type == ATYP_IPV4:\n            address = socket.inet_ntoa(data[:4])\n"},
         {"file": SP, "old": "class SOCKS5Server:\n", "new": "ATYP_IPV4 = 1\n\n\nclass SOCKS5Server:\n"}]},
+    # ------------------------------------------------------------------ round 7
+    {"name": "P R1 header built by a classmethod helper from a class-level prefix", "expect": "silent", "edits": [
+        {"file": PT, "old": "        header = cls.HEADER_STRUCT.pack(\n            0, 0, 1, socket.inet_aton(packet.far_addr[0]), packet.far_addr[1])\n"
+                            "        return header + packet.data\n",
+         "new": "        return cls._header_for(packet.far_addr) + packet.data\n\n    FIXED = (0, 0, 1)\n\n    @classmethod\n"
+                "    def _header_for(cls, addr):\n        return cls.HEADER_STRUCT.pack(*cls.FIXED, socket.inet_aton(addr[0]), addr[1])\n"}]},
+    {"name": "R1 header helper emits the port before the address", "expect": "C06.R1", "edits": [
+        {"file": PT, "old": "        header = cls.HEADER_STRUCT.pack(\n            0, 0, 1, socket.inet_aton(packet.far_addr[0]), packet.far_addr[1])\n"
+                            "        return header + packet.data\n",
+         "new": "        return cls._header_for(packet.far_addr) + packet.data\n\n    FIXED = (0, 0, 1)\n\n    @classmethod\n"
+                "    def _header_for(cls, addr):\n        return struct.pack(\"!HBBH4s\", *cls.FIXED, addr[1], socket.inet_aton(addr[0]))\n"}]},
+    {"name": "P R2 validated cache in front of the region scan", "file": ST, "expect": "silent",
+     "old": "        for region in self.regions:\n            if region.circuit_addr == circuit_addr and region.circuit:\n"
+            "                return region\n        return None\n",
+     "new": "        last = getattr(self, \"_last_region\", None)\n"
+            "        if last is not None and last.circuit_addr == circuit_addr and last.circuit and last in self.regions:\n"
+            "            return last\n        for region in self.regions:\n"
+            "            if region.circuit_addr == circuit_addr and region.circuit:\n                self._last_region = region\n"
+            "                return region\n        return None\n"},
+    {"name": "R2 unvalidated cache in front of the region scan", "file": ST, "expect": "C06.R2",
+     "old": "        for region in self.regions:\n            if region.circuit_addr == circuit_addr and region.circuit:\n"
+            "                return region\n        return None\n",
+     "new": "        last = getattr(self, \"_last_region\", None)\n        if last is not None and last.circuit:\n"
+            "            return last\n        for region in self.regions:\n"
+            "            if region.circuit_addr == circuit_addr and region.circuit:\n                self._last_region = region\n"
+            "                return region\n        return None\n"},
+    {"name": "P R3 handler stage moved into a helper of the protocol", "expect": "silent", "edits": [
+        {"file": LP, "old": "        try:\n            self.session.message_handler.handle(message)\n        except:\n"
+                            "            LOG.exception(\"Failed in session message handler\")\n        try:\n"
+                            "            region.message_handler.handle(message)\n        except:\n"
+                            "            LOG.exception(\"Failed in region message handler\")\n",
+         "new": "        self._internal_handlers(region, message)\n"},
+        {"file": LP, "old": "    def handle_proxied_packet(self, packet: UDPPacket):\n",
+         "new": "    def _internal_handlers(self, rgn, msg):\n        try:\n            self.session.message_handler.handle(msg)\n"
+                "        except:\n            LOG.exception(\"Failed in session message handler\")\n        try:\n"
+                "            rgn.message_handler.handle(msg)\n        except:\n            LOG.exception(\"Failed in region message handler\")\n\n"
+                "    def handle_proxied_packet(self, packet: UDPPacket):\n"}]},
 ]
